@@ -227,6 +227,11 @@ impl dsim::Monitor for FrameLiveness {
     }
 }
 
+/// Result type of the `par_extend` calls: its `None` is not the all-zero bit
+/// pattern (the niche is in the `bool`), so an entry that was "emptied" by
+/// zeroing reads as `Some((0, false))`.
+type Res = (u64, bool);
+
 fn value_of(j: usize, i: usize) -> u64 {
     0xD1_0000_0000 + (j as u64) * 1000 + i as u64
 }
@@ -237,7 +242,7 @@ fn one_broadcast(
     scn: &PoolScn,
     j: usize,
     out: &Mutex<PoolOutcome>,
-    reused: &Mutex<Vec<Option<u64>>>,
+    reused: &Mutex<Vec<Option<Res>>>,
 ) {
     let b = &scn.broadcasts[j];
     let n = b.n;
@@ -291,18 +296,25 @@ fn one_broadcast(
             let mut guard = reused.lock().unwrap();
             let vec = &mut *guard;
             vec.clear();
-            vec.push(Some(7));
+            vec.push(Some((7, true)));
             vec.push(None);
-            let r = std::panic::catch_unwind(std::panic::AssertUnwindSafe(|| pool.par_extend(vec, n, task)));
+            let r = std::panic::catch_unwind(std::panic::AssertUnwindSafe(|| {
+                pool.par_extend(vec, n, |i| (task(i), true))
+            }));
             probe::event(UserEv::BroadcastReturn { j: j as u32 });
             unwound = r.is_err();
-            if vec.len() < 2 || vec[0] != Some(7) || vec[1].is_some() {
+            if vec.len() < 2 || vec[0] != Some((7, true)) || vec[1].is_some() {
                 probe::fail(format!(
                     "par_extend disturbed existing elements: {:?}",
                     &vec[..vec.len().min(2)]
                 ));
             }
-            vec[2..].to_vec()
+            // An entry that is `Some` without the flag was never written by a
+            // call (e.g. zeroed memory read as `Some`).
+            vec[2..]
+                .iter()
+                .map(|e| e.map(|(v, written)| if written { v } else { 0xBAD0_0000_0000 | v }))
+                .collect()
         }
     };
     if unwound && !(b.payload_bomb && b.panics.contains(&0)) {
@@ -491,7 +503,7 @@ impl PoolScn {
                 // One result buffer reused across broadcasts (cleared in
                 // between), the way the sampling loop reuses `raw_samples`:
                 // a slot that `par_extend` fails to reset shows a stale value.
-                let reused: Arc<Mutex<Vec<Option<u64>>>> = Arc::new(Mutex::new(Vec::new()));
+                let reused: Arc<Mutex<Vec<Option<Res>>>> = Arc::new(Mutex::new(Vec::new()));
                 for j in 0..scn.broadcasts.len() {
                     let (pool2, scn2, out3, reused2) = (pool.clone(), scn.clone(), out2.clone(), reused.clone());
                     let one = move || one_broadcast(&pool2, &scn2, j, &out3, &reused2);
